@@ -91,3 +91,131 @@ Proof.
     + rewrite O3. intros s x Hx. destruct O8 as [O8|(e0 & He0 & O8)]; rewrite O8 in Hx; [eapply PD; eauto|].
       rewrite tgN_set in Hx. destruct (N.eqb_spec s seq); [subst; eapply PD; eauto | eapply PD; eauto].
 Qed.
+
+Lemma PInv_weaken : forall LG LG' b, (forall x, In x LG -> In x LG') -> PInv LG b -> PInv LG' b.
+Proof.
+  intros LG LG' b W [PP PI PD]. split; auto.
+  intros p c Hc. destruct (PP p c Hc) as (t & b0 & ec & ep & A & B). exists t, b0, ec, ep. split; auto.
+Qed.
+
+Lemma PF_weaken : forall LG LG' l, (forall x, In x LG -> In x LG') -> PF LG l -> PF LG' l.
+Proof.
+  intros LG LG' l W H f Hf Hn. destruct (H f Hf Hn) as (t & b0 & A & B). exists t, b0. split; auto.
+Qed.
+
+Lemma apply_locs_pinv : forall LG h rg locs b b',
+  PInv LG b -> PF LG (map loc_flot locs) -> apply_locs h rg locs b = Ok b' -> PInv LG b'.
+Proof.
+  intros LG h rg locs. induction locs as [|[[[op off] f] o] r IH]; intros b b' HP HF H; cbn [apply_locs] in H.
+  - inv H. auto.
+  - dbind H. eapply IH; [| |exact H].
+    + eapply step_pinv; eauto. intro Hn. apply (HF f); auto. left. reflexivity.
+    + intros g Hg. apply HF. right. exact Hg.
+Qed.
+
+Lemma apply_lost_pinv : forall LG h rg ov l b b',
+  PInv LG b -> PF LG l -> apply_lost h rg ov l b = Ok b' -> PInv LG b'.
+Proof.
+  intros LG h rg ov l. induction l as [|f r IH]; intros b b' HP HF H; cbn [apply_lost] in H.
+  - inv H. auto.
+  - dbind H. dbind H. eapply IH; [| |exact H].
+    + eapply step_pinv; eauto. intro Hn. apply (HF f); auto. left. reflexivity.
+    + intros g Hg. apply HF. right. exact Hg.
+Qed.
+
+Lemma rebase_pf : forall LG reward ov l l', rebase reward ov l = Ok l' -> PF LG l -> PF LG l'.
+Proof.
+  intros LG reward ov l. induction l as [|f r IH]; intros l' H HF; cbn [rebase] in H.
+  - inv H. exact HF.
+  - dbind H. dbind H. inv H. intros g [Hg|Hg] Hn.
+    + subst g. unfold is_new, parents_of in *. cbn [f_origin f_id] in *. apply (HF f); [left; reflexivity|exact Hn].
+    + eapply IH; eauto. intros x Hx. apply HF. right. exact Hx.
+Qed.
+
+Lemma PInv_ext : forall LG b b2,
+  s_entries (b_st b2) = s_entries (b_st b) -> s_id2seq (b_st b2) = s_id2seq (b_st b) ->
+  s_children (b_st b2) = s_children (b_st b) -> b_next b2 = b_next b -> PInv LG b -> PInv LG b2.
+Proof. intros LG b b2 E1 E2 E3 E4 [PP PI PD]. split; rewrite ?E1, ?E2, ?E3, ?E4; auto. Qed.
+
+Lemma index_inscriptions_pinv : forall cfg LG h t ents rg b b',
+  PInv LG b -> PF LG (b_flot b) ->
+  (forall F tiv, floating_of cfg (b_st b) h t ents = Ok (F, tiv) -> PF LG F) ->
+  index_inscriptions cfg h t ents rg b = Ok b' -> PInv LG b' /\ PF LG (b_flot b').
+Proof.
+  intros cfg LG h t ents rg b b' HP HF HFl H. unfold index_inscriptions in H. dbind H. destruct a as [F tiv].
+  specialize (HFl F tiv eq_refl). clear E.
+  destruct (tx_is_coinbase t).
+  - destruct (assign (t_id t) 0 0 (t_outs t) (sort_by f_offset (F ++ b_flot b))) as [[locs rest] ov] eqn:EA.
+    apply assign_split in EA.
+    assert (HA : PF LG (map loc_flot locs ++ rest)).
+    { rewrite <- EA. intros f Hf. eapply Permutation_in in Hf; [|apply sort_by_perm]. apply in_app_or in Hf. destruct Hf; auto. }
+    dbind H. dbind H. dbind H. inv H.
+    assert (Q1 : PInv LG a).
+    { eapply apply_locs_pinv; [| |exact E]; [eapply PInv_ext; [| | | |exact HP]; reflexivity | intros f Hf; apply HA; apply in_or_app; auto]. }
+    assert (Q2 : PInv LG a0).
+    { eapply apply_lost_pinv; [| |exact E0]; [exact Q1 | intros f Hf; apply HA; apply in_or_app; auto]. }
+    split; [eapply PInv_ext; [| | | |exact Q2]; reflexivity|].
+    cbn [b_flot]. rewrite (apply_lost_flot _ _ _ _ _ _ E0), (apply_locs_flot _ _ _ _ _ E). cbn. intros f [].
+  - destruct (assign (t_id t) 0 0 (t_outs t) (sort_by f_offset F)) as [[locs rest] ov] eqn:EA.
+    apply assign_split in EA.
+    assert (HA : PF LG (map loc_flot locs ++ rest)).
+    { rewrite <- EA. intros f Hf. eapply Permutation_in in Hf; [|apply sort_by_perm]. auto. }
+    dbind H. dbind H. dbind H. inv H.
+    assert (Q1 : PInv LG a).
+    { eapply apply_locs_pinv; [| |exact E]; [exact HP | intros f Hf; apply HA; apply in_or_app; auto]. }
+    split; [eapply PInv_ext; [| | | |exact Q1]; reflexivity|].
+    cbn [b_flot]. rewrite (apply_locs_flot _ _ _ _ _ E). intros f Hf. apply in_app_or in Hf. destruct Hf as [Hf|Hf]; auto.
+    eapply rebase_pf; eauto. intros g Hg. apply HA. apply in_or_app. auto.
+Qed.
+
+Lemma index_tx_pinv : forall cfg LG h insc (first : bool) t b b',
+  PInv LG b -> PF LG (b_flot b) ->
+  index_tx cfg h insc first t b = Ok b' ->
+  PInv ((t, b) :: LG) b' /\ PF ((t, b) :: LG) (b_flot b').
+Proof.
+  intros cfg LG h insc first t b b' HP HF H.
+  assert (W : forall x, In x LG -> In x ((t, b) :: LG)) by (intros x Hx; right; exact Hx).
+  unfold index_tx in H.
+  dbind H. destruct a as [ents utxo1]. rename E into ET. dbind H. destruct a as [[per_out in_ranges] b1].
+  assert (Hb1 : b_st b1 = b_st b /\ b_next b1 = b_next b /\ b_flot b1 = b_flot b).
+  { destruct (c_sats cfg).
+    - dbind E. destruct a as [po lft]. destruct first; inv E; cbn; auto.
+    - inv E. auto. }
+  destruct Hb1 as (Q1 & Q2 & Q3).
+  match type of H with (if insc then index_inscriptions _ _ _ _ _ ?B else _) = _ => set (b2 := B) in * end.
+  assert (HP2 : PInv ((t, b) :: LG) b2).
+  { eapply PInv_ext; [| | | |eapply PInv_weaken; [exact W|exact HP]]; subst b2; unfold set_st, with_utxo; cbn; auto. }
+  assert (HF2 : PF ((t, b) :: LG) (b_flot b2)).
+  { subst b2. unfold set_st. cbn [b_flot]. rewrite Q3. eapply PF_weaken; eauto. }
+  destruct insc; [|inv H; auto].
+  eapply index_inscriptions_pinv; [exact HP2|exact HF2| |exact H].
+  intros F tiv EF f Hf Hn. exists t, b. split; [left; reflexivity|].
+  destruct (floating_of_props _ _ _ _ _ _ _ EF) as (P1 & _ & _).
+  split.
+  - apply P1. unfold new_ids. apply in_map. apply filter_In. auto.
+  - intros pid Hp. destruct (parents_spent_or_revealed _ _ _ _ _ _ _ EF f pid Hf Hp) as [Hq|(u & seq & off & e & U1 & U2 & U3 & U4)].
+    + left. exact Hq.
+    + right. subst b2. unfold set_st, with_utxo in U3. cbn [b_st s_entries] in U3.
+      destruct first; [inv ET; destruct U1|].
+      destruct (take_inputs_tg _ _ _ _ ET) as (T1 & _ & _).
+      destruct (Forall2_In_r _ _ _ _ T1 U1) as (p & P & Q). exists p, u, seq, off, e. auto.
+Qed.
+
+(* ---- the ghost log *)
+
+Fixpoint txs_log (cfg : config) (h : N) (insc : bool) (l : list tx) (b : bst) : log :=
+  match l with
+  | [] => []
+  | t :: r => (t, b) :: match index_tx cfg h insc false t b with Ok b' => txs_log cfg h insc r b' | _ => [] end
+  end.
+
+Lemma index_txs_pinv : forall cfg h insc l LG b b',
+  PInv LG b -> PF LG (b_flot b) -> index_txs cfg h insc l b = Ok b' ->
+  exists LG', PInv LG' b' /\ PF LG' (b_flot b') /\ (forall x, In x LG' <-> In x (txs_log cfg h insc l b) \/ In x LG).
+Proof.
+  intros cfg h insc l. induction l as [|t r IH]; intros LG b b' HP HF H; cbn [index_txs] in H.
+  - inv H. exists LG. split; [exact HP|]. split; [exact HF|]. intro x. cbn. tauto.
+  - dbind H. destruct (index_tx_pinv _ _ _ _ _ _ _ _ HP HF E) as [A B].
+    destruct (IH _ _ _ A B H) as (LG' & A' & B' & C'). exists LG'. split; [exact A'|]. split; [exact B'|].
+    intro x. rewrite C'. cbn [txs_log]. rewrite E. cbn [In]. tauto.
+Qed.
